@@ -22,3 +22,21 @@ pub type PoolMapping<C> = SmtMapping<C, PoolKey, PoolState>;
 #[verifier::external_body] pub struct StakeSet { _p: u8 }
 impl View for StakeSet { type V = Map<TxHash, StakeDoc>; uninterp spec fn view(&self) -> Map<TxHash, StakeDoc>; }
 impl Clone for StakeSet { #[verifier::external_body] fn clone(&self) -> (r: Self) ensures r == *self { unimplemented!() } }
+
+// ---- melstructs::Block (A-STRUCTS): transactions are an UNORDERED set (std HashSet): iteration order unspecified
+#[verifier::external_body] pub struct BlockTxs { _p: u8 }
+impl View for BlockTxs { type V = Set<Transaction>; uninterp spec fn view(&self) -> Set<Transaction>; }
+impl BlockTxs {
+    #[verifier::external_body]
+    pub fn iter(&self) -> (r: Vec<&Transaction>) ensures derefseq(r@).no_duplicates(), derefseq(r@).to_set() == self@ { unimplemented!() }
+}
+impl FromItems<Transaction> for BlockTxs { open spec fn built_from(items: Seq<Transaction>, r: Self) -> bool { r@ == items.to_set() } }
+pub struct Block { pub header: Header, pub transactions: BlockTxs, pub proposer_action: Option<ProposerAction> }
+impl Default for TransactionSet { #[verifier::external_body] fn default() -> (r: TransactionSet) ensures r@ == Map::<TxHash, Transaction>::empty() { unimplemented!() } }
+impl Default for HashVal { fn default() -> (r: HashVal) ensures r == spec_zero_hash() { HashVal::default() } }
+impl FromItems<Transaction> for TransactionSet {
+    open spec fn built_from(items: Seq<Transaction>, r: Self) -> bool {
+        &&& forall|h: TxHash| #[trigger] r@.contains_key(h) <==> exists|i: int| 0 <= i < items.len() && spec_txhash(#[trigger] items[i]) == h
+        &&& forall|h: TxHash| r@.contains_key(h) ==> spec_txhash(#[trigger] r@[h]) == h
+    }
+}
